@@ -44,6 +44,11 @@ ExactlyOnce(j, d)     == \A ff \in DOMAIN d : \A q \in DOMAIN d[ff] : Cnt(j, ff,
 FileComplete(j, rv, d, ff) == /\ rv[ff].exists /\ rv[ff].applied = Len(d[ff]) /\ rv[ff].total = Len(d[ff]) /\ rv[ff].partial = <<>>
                               /\ \A q \in DOMAIN d[ff] : Cnt(j, ff, d[ff][q]) >= 1
 
+\* the statements of file ff in the order they were first executed
+RECURSIVE Dedup(_, _)
+Dedup(s, seen) == IF s = <<>> THEN <<>> ELSE IF Head(s) \in seen THEN Dedup(Tail(s), seen) ELSE <<Head(s)>> \o Dedup(Tail(s), seen \cup {Head(s)})
+Executed(j, ff) == LET own == SelectSeq(j, LAMBDA e : e[1] = ff) IN Dedup([k \in DOMAIN own |-> own[k][2]], {})
+
 Bad(name, cond) == IF cond THEN {} ELSE {<<Ev.c, name>>}
 
 Init == /\ dirv = <<>> /\ journal = <<>> /\ revs = <<>> /\ lastExec = None /\ lost = <<>> /\ wfault = FALSE /\ edited = FALSE
@@ -61,7 +66,10 @@ Run == /\ Is("run")
        /\ snapJ' = journal /\ snapR' = revs /\ faultInRun' = FALSE /\ execsInRun' = 0 /\ wfaultInRun' = FALSE /\ lastExec' = None
        /\ LET P == PendingOf(revs) IN
             /\ fp' = IF P = {} THEN 0 ELSE Min(P)
-            /\ due' = (P # {} /\ Mismatch(revs[Min(P)], dirv[Min(P)]))
+            \* a refusal is owed iff the statements that were REALLY executed for the first pending file (ground truth: the
+            \* journal) are no longer the file's first `applied` statements -- not iff the stored hashes say so
+            /\ due' = (P # {} /\ LET ff == Min(P)  k == revs[ff].applied IN
+                          k > 0 /\ (k > Len(dirv[ff]) \/ k > Len(Executed(journal, ff)) \/ SubSeq(dirv[ff], 1, k) # SubSeq(Executed(journal, ff), 1, k)))
             /\ want' = IF P = {} THEN {} ELSE IF Ev.n = 0 THEN {ff \in Files : ff >= Min(P)}
                                                 ELSE {ff \in Files : ff >= Min(P) /\ ff < Min(P) + Ev.n}
        /\ UNCHANGED <<dirv, journal, revs, lost, wfault, edited, viol>>
